@@ -511,28 +511,87 @@ def orders2(max_ticks):
                     yield pre, sched
 
 
+CTXS = [
+    lambda h: h,
+    lambda h: ["seq", ["mark", 1], ["seq", h, ["mark", 2]]],
+    lambda h: ["tryx", h, "C", ["mark", 3]],
+    lambda h: ["tryx", h, "E", ["seq", ["yield", ["moment"]], ["ret", 9]]],
+    lambda h: ["tryf", h, ["seq", ["mark", 4], ["yield", ["none"]]]],
+    lambda h: ["tryf", ["tryx", ["seq", ["mark", 1], h], "B", ["raise", "V"]], ["mark", 5]],
+    lambda h: ["tryx", ["raise", "K"], "K", ["tryf", h, ["ret", 5]]],
+    lambda h: ["tryf", ["mark", 1], ["tryx", h, "C", ["skip"]]],
+    lambda h: ["call", ["tryf", h, ["mark", 6]]],
+    lambda h: ["tryx", ["call", ["seq", ["yield", ["fut", 1]], h]], "B", ["mark", 7]],
+]
+
+
+def family_cases(rng):
+    """cases aimed at C37_failed_or_cancelled_await_is_raise (both sides of the theorem, for a failed and for a
+    cancelled future, pending or already done) and at C37_fast_path (bodies that never yield)"""
+    out = []
+    for cx in CTXS:
+        for f, e in ((["exc", "K"], "K"), (["cancel"], "C"), (["exc", "C"], "C")):
+            other = [1, ["res", 3]]
+            out.append(mk(cx(["yield", ["fut", 0]]), [other], [["tick"], ["done", 0, f], ["tick"]], force_gen=True))
+            out.append(mk(cx(["yield", ["fut", 0]]), [[0, f], other], [], force_gen=True))
+            out.append(mk(cx(["raise", e]), [other], [["tick"], ["done", 0, f], ["tick"]], force_gen=True))
+    for _ in range(40):
+        marks = [0]
+
+        def ny(d):
+            r = rng.random()
+            if d <= 0 or r < 0.3:
+                q = rng.random()
+                if q < 0.4:
+                    marks[0] += 1
+                    return ["mark", marks[0]]
+                if q < 0.65:
+                    return ["raise", rng.choice(["K", "V", "C"])]
+                if q < 0.85:
+                    return ["ret", rng.choice([0, 5])]
+                return ["skip"]
+            if r < 0.55:
+                return ["seq", ny(d - 1), ny(d - 1)]
+            if r < 0.8:
+                return ["tryx", ny(d - 1), rng.choice(["K", "V", "C", "E", "B"]), ny(d - 1)]
+            return ["tryf", ny(d - 1), ny(d - 1)]
+        p = ny(3)
+        out.append(mk(p, [], [["tick"]] if rng.random() < 0.5 else [], force_gen=has_outer_raise_cancel(p) or rng.random() < 0.5))
+    return out
+
+
 def gen_cases(rng, tier):
     out = []
     if tier == "quick":
         n_rand, n_small = 700, 400
     elif tier == "thorough":
-        n_rand, n_small = 9000, 0
+        n_rand, n_small = 5000, 0
     else:   # search
         n_rand, n_small = 1500, 300
     for _ in range(n_rand):
         out.append(rand_case(rng))
+    out += family_cases(rng)
     small = []
     for a in ATOMS:
         for b in ATOMS:
             for w in WRAPS:
                 small.append(w(a, b))
     if tier == "thorough":
-        # small scope, exhaustively: every 2-atom program x every outcome pair x every completion order
-        # around up to 3 single-callback ticks
+        # EXHAUSTIVE small scope: every 2-atom program over the 8 core atoms (5 combinators: 320 programs)
+        # x every outcome pair in {result, exception, cancel}^2 x every completion order / timing
+        # (before the call, before or after the single tick): 90 schedules
+        scheds1 = list(orders2(1))
+        for a in ATOMS[:8]:
+            for b in ATOMS[:8]:
+                for w in WRAPS:
+                    p = w(a, b)
+                    for j, (pre, sched) in enumerate(scheds1):
+                        out.append(mk(p, pre, sched, 200, force_gen=(j % 2 == 0)))
+        # larger scope (11 atoms, <= 3 ticks: 605 programs x 252 schedules), every 12th pairing
         scheds = list(orders2(3))
         for k, p in enumerate(small):
             for j, (pre, sched) in enumerate(scheds):
-                if (k + j) % 5 == 0:       # a fifth of the product: 605 programs x 252 schedules
+                if (k + j) % 12 == 0:
                     out.append(mk(p, pre, sched, 200, force_gen=(j % 2 == 0)))
     else:
         scheds = list(orders2(2))
@@ -631,14 +690,17 @@ TRUSTED_BASE = [
 ]
 ASSUMPTIONS = [
     "programs come from the bounded grammar of coq/C37/Model.v (stmt); nested coroutines are native; the decorated function is a generator function (a plain function under gen.coroutine is outside the property)",
-    "quiescence: both forms are compared once their loop's ready queue is empty; that every schedule drains after finitely many ticks (liveness) is not proved, it is checked on every generated case (200-tick budget, flag in the observable)",
+    "both forms are compared once their loop's ready queue is empty; that this always happens after finitely many ticks is proved (C37_no_livelock, explicit bound C37_no_livelock_bound); each generated case uses a 200-tick budget and reports whether it drained",
 ]
 RULE = ("random programs (depth <= 4, <= 4 futures) x random schedules of completions (result / exception / cancel / already done / never) and single-callback ticks; "
-        "thorough adds every 2-atom program x every outcome pair x every completion order around <= 3 ticks (a fifth of the product); "
+        "context x failed/cancelled-await families and no-yield (fast path) bodies; "
+        "thorough adds, EXHAUSTIVELY, every 2-atom program over 8 atoms x 5 combinators x every outcome pair x every completion order/timing around one tick (28800 cases) "
+        "and every 12th pairing of the larger scope (11 atoms, <= 3 ticks); "
         "distinct by (program, pre, schedule, fuel); non-trivial = program contains a yield, raise or try")
 LEVEL_TEXT = ("Machine-checked (Coq) proof that, for every program of the grammar and every schedule of future completions/cancellations and "
               "single loop callbacks, the gen.coroutine wrapper + Runner and an asyncio Task driving the same body reach, at quiescence, the same "
-              "final future state and the same own side-effect trace: both equal a schedule-independent reference semantics of the body. "
+              "final future state and the same own side-effect trace: both equal a schedule-independent reference semantics of the body; quiescence is always "
+              "reached after finitely many callbacks (no livelock, explicit potential bound), so the equivalence also holds unconditionally 'eventually'. "
               "The event-loop/Runner/Task/multi model is tied to the real code hop by hop (trace and ready-queue lengths after every event).")
 LEVEL_NOTE = "Trusted: Coq kernel/vm_compute; the generator-object model (resumption trees); asyncio internals as modelled; correspondence harness."
 TECHNIQUE = "Coq proof (simulation invariant against a reference semantics, induction over schedules and resumption trees) + differential correspondence via vm_compute"
